@@ -175,6 +175,21 @@ def run(ctx):
         if got != sorted(K.expected_types(mol_name)):
             ctx.violation(f"kit:ligand-group-types:{mol_name}", f"{cname}: groups recognised on {resn}: {got}, declared {sorted(K.expected_types(mol_name))}",
                           {"pdb": ctext, "optargs": []})
+    # ... and every molecule of the kit on its own (no fragment next to it): all of them, whatever the seed selects above
+    from .. import runner as _runner
+    for mol_name in sorted(K.molecules()):
+        resn = K.molecules()[mol_name][0]
+        mtext = C.join(K.lines(mol_name, (20000, 20000, 20000)))
+        rk = _runner.run(mtext, ["-q"], write=False)
+        ctx.count()
+        if rk.exc is not None:
+            ctx.violation(f"kit:alone:exception:{mol_name}", f"{mol_name} alone: {rk.exc!r}", {"pdb": mtext, "optargs": []})
+            continue
+        conf0 = rk.mol.conformations[rk.mol.conformation_names[0]]
+        got = sorted(g.type for g in conf0.groups if g.atom.res_name.strip() == resn)
+        if got != sorted(K.expected_types(mol_name)):
+            ctx.violation(f"kit:ligand-group-types:{mol_name}", f"{mol_name} alone: groups recognised on {resn}: {got}, "
+                          f"declared {sorted(K.expected_types(mol_name))}", {"pdb": mtext, "optargs": []})
     viol = runbank.validate(ctx, recs, metas, runbank.RUN_INV["C01"])
     texts = {c[0]: (c[1], c[2]) for c in cases}
     for inv, lst in sorted(viol.items()):
